@@ -199,8 +199,12 @@ def assemble(prop, tier, seed, unit_results, fn_results, wall):
                 machinery_errors.append(f"{tag}: engine disagrees with CPython on concrete inputs; its verdicts are not trusted: {json.dumps(c['mismatches'][0], default=str)[:400]}")
             for ce in c.get("contract_errors") or []:
                 xc["skipped"]["contract not evaluable natively: " + ce[:60]] = xc["skipped"].get("contract not evaluable natively: " + ce[:60], 0) + 1
+            rt_seen = set()
             for cf in c.get("contract_failures") or []:
                 for clause in cf["failed_clauses"][:2]:
+                    if clause in rt_seen:
+                        continue       # one witness per clause
+                    rt_seen.add(clause)
                     violations.append({"obligation": f"{u.get('prop', prop)}/RT/{tag}/{clause}"[:200], "unit": tag, "kind": "rt", "model": cf["inputs"],
                                        "replay": {"status": "confirmed", "failed_clauses": cf["failed_clauses"], "inputs": cf["inputs"], "observed": cf["observed"]},
                                        "solver": "RT (contract evaluated on a native run of the real function)", "target": u.get("target")})
